@@ -583,10 +583,16 @@ def run(ctx):
         except Exception as exc:
             ctx.fail('no exception', f'parse:{type(exc).__name__}', case, f'{type(exc).__name__}: {exc}')
         n += 1
+    from .. import coldstart
+    n += coldstart.phase(ctx, coldstart.parser_overlap_jobs(), 'final sequence == reference', kind='cold', offset=9)
     ctx.count('cases', n)
 
 
 def replay(ctx, case):
+    if case.get('kind') == 'cold':
+        from .. import coldstart
+        coldstart.replay(ctx, case, 'final sequence == reference')
+        return
     if case['kind'] == 'checkpoint':
         checkpoint_case(ctx, list(case['bytes']), case['cut'], case['how'])
     elif case['kind'] == 'case':
